@@ -377,7 +377,8 @@ func Flatten(t *Tree) *Decl {
 		if own == nil {
 			own = &GroupNode{}
 		}
-		d.Groups = append(d.Groups, FGroup{Cmd: ci, Parent: parentOwn, Desc: toS(c.Desc), Own: true})
+		// Command embeds *Group: a command's Hidden mark is the Hidden mark of its own group
+		d.Groups = append(d.Groups, FGroup{Cmd: ci, Parent: parentOwn, Desc: toS(c.Desc), Own: true, Hidden: c.Hidden})
 		ownIdx := len(d.Groups)
 		own.idx = ownIdx
 		var walkGroup func(g *GroupNode, gi int)
